@@ -455,6 +455,9 @@ ParamsLoop:
 				break ParamsLoop
 			}
 			t = p.Scan()
+			if t.Type == token.SgCloseBkt {
+				tokenError(t, "name or '...'")
+			}
 		case token.SgEtc:
 			hasEtc = true
 			t = p.Scan()
